@@ -44,6 +44,8 @@ pub struct Ledger {
     /// (item, started stamp, finished stamp)
     pub stamps: Mutex<Vec<(u32, u64, u64)>>,
     pub err_callbacks: Mutex<Vec<u32>>,
+    /// the error callbacks that ran to their end (an asynchronous callback may take a while)
+    pub err_callbacks_completed: Mutex<Vec<u32>>,
     pub close_calls: AtomicU32,
     /// (item, microseconds between the construction of the item future -- which precedes the executor wrapping it into its timeout -- and its drop)
     /// for items dropped before completion, on the runtime's own clock (virtual under the paused runtime, real otherwise): a timeout may cancel an
